@@ -7,6 +7,7 @@ Line handler shared by the drivers of C22 and C28 (`lean/Drv/C22.lean`, `lean/Dr
 One whole history per line:  `imm <readonly 0|1> <reserved> op op …`  with
   `A:si:shs:size:rechex:free:order[:conn]`  allocate_buckets (shs / order: comma lists or `-`); with
         `conn`: FoolscapStorageServer.remote_allocate_buckets on connection (canary) `conn`
+  `Z`               the server process is killed and restarted on the same directory → `ok`
   `K:conn`          the connection is lost (its canary fires the registered watchers) → `ok`
         → `a=<already sorted>|w=<shnum>.<wid>,…`  or  `NoSpace` / `StructError`
   `W:wid:off:hex`   bw.write   → `ok.T|ok.F|conflict|toolarge|valueerror|closed` `/` ranges after
@@ -75,6 +76,7 @@ def stepOp (s : Server) (op : String) : Option (Server × String) :=
     | .error .noSpace => pure (r.1, "NoSpace")
     | .error _ => pure (r.1, "StructError")
   | ["K", conn] => do pure (disconnectOp s (← conn.toNat?), "ok")
+  | ["Z"] => some (restartOp s, "ok")
   | ["W", wid, off, d] => do
     let wid ← wid.toNat?
     let r := writeOp s wid (← off.toNat?) (← bytesOfHex d)
@@ -130,6 +132,7 @@ def parseFOp (s : Server) (op : String) : Option (List FOp) :=
     pure ([.allocConn (← conn.toNat?) (← si.toNat?) (← parseNatList shs) (← size.toNat?) (← bytesOfHex rec)
       (← parseFree free) (← parseNatList order)])
   | ["K", conn] => do pure [.disconnect (← conn.toNat?)]
+  | ["Z"] => some [.restart]
   | ["W", wid, off, d] => do pure [.direct (.write (← wid.toNat?) (← off.toNat?) (← bytesOfHex d))]
   | ["C", wid] => do pure [.direct (.close (← wid.toNat?))]
   | ["X", wid] => do pure [.direct (.abort (← wid.toNat?))]
